@@ -89,6 +89,31 @@ func (fc *FnCtx) monitorsGuarding(a *Addr) []*Monitor {
 
 func lockKey(m *Monitor, base string) string { return m.Name + "@" + base }
 
+// lockHeld: the monitor lock of the object denoted by base is held. Lock states
+// are recorded per reference TERM; the same object may be denoted by another
+// term, so every recorded lock of the monitor whose reference equals base counts.
+func (fc *FnCtx) lockHeld(st *State, m *Monitor, base string) string {
+	if t, ok := st.locks[lockKey(m, base)]; ok {
+		return t
+	}
+	pre := m.Name + "@"
+	var keys []string
+	for k := range st.locks {
+		if strings.HasPrefix(k, pre) {
+			keys = append(keys, k)
+		}
+	}
+	sort.Strings(keys)
+	var alts []string
+	for _, k := range keys {
+		alts = append(alts, tAnd(tEq(k[len(pre):], base), st.locks[k]))
+	}
+	if len(alts) == 0 {
+		return "false"
+	}
+	return tOr(alts...)
+}
+
 func (fc *FnCtx) selfVal(m *Monitor, base string) Val {
 	return Val{K: KAddr, T: types.NewPointer(m.rootType), A: &Addr{Kind: AObj, Base: base, Root: m.rootType, T: m.rootType}}
 }
@@ -282,10 +307,7 @@ func (fc *FnCtx) guardedAccess(fr *Frame, st *State, reach string, a *Addr, writ
 		return
 	}
 	for _, m := range fc.monitorsGuarding(a) {
-		held := st.locks[lockKey(m, a.Base)]
-		if held == "" {
-			held = "false"
-		}
+		held := fc.lockHeld(st, m, a.Base)
 		if os.Getenv("GOVC_TRACE") != "" {
 			fmt.Fprintf(os.Stderr, "guarded %s key=%s held=%s locks=%v\n", fr.prefix, lockKey(m, a.Base), held, st.locks)
 		}
@@ -348,6 +370,12 @@ func (fc *FnCtx) chanContract(ch Val) *Contract {
 
 // chanSend: channel invariant checked, tokens handed over (when cond holds: the send case fired).
 func (fc *FnCtx) chanSend(fr *Frame, st *State, reach string, ch Val, sent Val, cond string) {
+	// built-in ghost: sendtries(ch) counts the send attempts made on a channel
+	// (a plain send, or a send case of a select, whether or not it is chosen)
+	if ch.S != "" {
+		l := loc{name: "GH$sendtries", idx: []string{ch.S}, sort: "Int"}
+		fc.storeLoc(st, l, sx("+", fc.loadLoc(st, l), "1"))
+	}
 	con := fc.chanContract(ch)
 	if con == nil {
 		return
